@@ -179,6 +179,35 @@ def run_property(prop_id, tier="quick", seed=0, jobs=None, only=None, write_evid
     n_disch = 0
     known_obligations = []
     samples = []
+    # native replays of refuted obligations run concurrently (each is a subprocess)
+    replay_jobs = {}
+    for name, g in groups.items():
+        if g["kind"] == "canary" or not g["refuted"]:
+            continue
+        h = hmap[g["harness"]]
+        seen = set()
+        for ob in g["refuted"]:
+            w = ob.get("witness") or {}
+            sig = w.get("signature", "")
+            if (name, sig) in seen or len(seen) >= MAX_REPLAYS_PER_OBLIGATION:
+                continue
+            seen.add((name, sig))
+            if h.replay is not None and w:
+                replay_jobs[(name, sig)] = (h.replay, w)
+    replay_results = {}
+    if replay_jobs:
+        from concurrent.futures import ThreadPoolExecutor
+
+        def _do(item):
+            key, (fn, w) = item
+            try:
+                return key, fn(w)
+            except Exception as e:  # noqa
+                return key, {"reproduced": False, "error": f"{type(e).__name__}: {e}", "tb": traceback.format_exc()[-2000:]}
+        with ThreadPoolExecutor(max_workers=16) as ex:
+            for key, r in ex.map(_do, replay_jobs.items()):
+                replay_results[key] = r
+
     for name, g in sorted(groups.items()):
         if g["kind"] == "canary":
             canaries["expected_refutable"] += 1
@@ -211,12 +240,7 @@ def run_property(prop_id, tier="quick", seed=0, jobs=None, only=None, write_evid
             if len(seen_sig) >= MAX_REPLAYS_PER_OBLIGATION:
                 break
             seen_sig.add((name, sig))
-            rep = None
-            if h.replay is not None and w:
-                try:
-                    rep = h.replay(w)
-                except Exception as e:  # noqa
-                    rep = {"reproduced": False, "error": f"{type(e).__name__}: {e}", "tb": traceback.format_exc()[-2000:]}
+            rep = replay_results.get((name, sig))
             k = match_known(known, name, sig)
             os.makedirs(replay_dir, exist_ok=True)
             fn = os.path.join(replay_dir, _safe(name) + ("-" + _safe(sig)[:60] if sig else "") + ".json")
